@@ -450,5 +450,44 @@ func init() {
 		},
 	}
 	Registry["C01"] = fam
-	Registry["C02"] = fam
+	// C02 runs the same oracles over a generator biased towards inputs that must
+	// change nothing: every operation is redelivered with probability 1/2, lists
+	// are re-synced unchanged, stale versions, deletes of unknown keys and
+	// rejected unknown objects are over-represented.
+	fam2 := *fam
+	fam2.Gen = func(g GenCtx) interface{} {
+		sc := genCache(g).(*CacheScen)
+		if g.Idx%2 == 1 {
+			return sc // the alphabet sweep is shared
+		}
+		rng := g.Rng
+		var ops []CacheOp
+		for _, op := range sc.Ops {
+			ops = append(ops, op)
+			switch rng.Intn(6) {
+			case 0, 1, 2:
+				ops = append(ops, op) // redelivery
+			case 3:
+				if op.Op == "update" {
+					// the same object again as the other wire type, and one version older
+					o := op
+					o.Typ = pick(rng, "create", "update")
+					ops = append(ops, o)
+					if v, err := strconv.Atoi(op.Obj.RV); err == nil && v > 0 {
+						o.Obj.RV = strconv.Itoa(v - 1)
+						ops = append(ops, o)
+					}
+				}
+			case 4:
+				k := cacheKeys[rng.Intn(len(cacheKeys))]
+				ops = append(ops, CacheOp{Op: "update", Typ: "delete", Obj: world.Spec{NS: k[0], Name: "ghost-" + k[1], RV: "3"}})
+			}
+		}
+		if len(ops) > 24 {
+			ops = ops[:24]
+		}
+		sc.Ops = ops
+		return sc
+	}
+	Registry["C02"] = &fam2
 }
